@@ -107,6 +107,37 @@ fn eval_lib(_ctx: &Ctx, case: &LibCase) -> Verdict {
         ensure!(if exact { a == b } else { ulp_close(*a, *b) }, "fold(mirror(x)) differs from fold(x) at flat cell {i}: {a} vs {b} (input {:?})", spec);
     }
 
+    // one folded spectrum unfolded several times: `Folded::into_spectrum` takes `&self`, so every call
+    // (and every call on a clone made in between) must use its own fill and nothing of the earlier ones
+    {
+        let scs = spec.to_scs();
+        let fills = [fill, 0.0, -1.0, f64::INFINITY, fill, f64::NAN, 0.0];
+        let outs = guard(|| {
+            let folded = scs.fold();
+            let mut outs = Vec::new();
+            for (i, f) in fills.iter().enumerate() {
+                if i == 3 {
+                    let copy = folded.clone();
+                    outs.push((*f, "a clone made after three calls", Spec::from_scs(&copy.into_spectrum(*f))));
+                }
+                outs.push((*f, "the same Folded", Spec::from_scs(&folded.into_spectrum(*f))));
+            }
+            outs
+        })
+        .map_err(|p| Failure::new(format!("repeated into_spectrum on the fold of shape {:?}: {p}", spec.shape)))?;
+        for (k, (f, who, out)) in outs.iter().enumerate() {
+            let want = spec.fold(*f);
+            for (pos, (g, w)) in out.values.iter().zip(&want.values).enumerate() {
+                ensure!(
+                    (g.is_nan() && w.is_nan()) || ulp_close(*g, *w),
+                    "call {k} of into_spectrum on {who} of {:?} with fill {f}: flat cell {pos} = {g}, the definition with this fill gives {w} (fills used so far: {:?})",
+                    spec,
+                    &fills[..fills.len().min(k + 1)]
+                );
+            }
+        }
+    }
+
     // the same definition on the frequency type-state (Sfs): the fold of the normalised values,
     // untouched by the fill (no re-normalisation after filling)
     let sum = spec.sum();
@@ -292,7 +323,7 @@ pub fn check(ctx: &Ctx) -> Check {
     let parts: Vec<Box<dyn Part>> = vec![
         Box::new(EnumPart {
             name: "lib-exhaustive",
-            rule: "every shape with <=4 axes of length <=5 (thorough <=7) and every 5-axis shape of length <=3 x 4 fills x 3 non-ramp value vectors (two hashed-integer, one real); per-cell definition (2s vs T), mass / idempotence / polarity laws with fill 0; each spectrum is folded a second time on the frequency type-state (into_normalized().fold(), compared with the definition applied to the normalised values) and a third time with a seventh of its entries replaced by NaN / +inf / -inf (which must propagate through the pair sums and never be replaced by the fill); non-trivial = input not mirror-antisymmetric and (>=2 axes or a length-1 axis); distinct by shape",
+            rule: "every shape with <=4 axes of length <=5 (thorough <=7) and every 5-axis shape of length <=3 x 4 fills x 3 non-ramp value vectors (two hashed-integer, one real); one `Folded` unfolded seven times with changing fills (and a clone made midway), each result against the definition with its own fill; per-cell definition (2s vs T), mass / idempotence / polarity laws with fill 0; each spectrum is folded a second time on the frequency type-state (into_normalized().fold(), compared with the definition applied to the normalised values) and a third time with a seventh of its entries replaced by NaN / +inf / -inf (which must propagate through the pair sums and never be replaced by the fill); non-trivial = input not mirror-antisymmetric and (>=2 axes or a length-1 axis); distinct by shape",
             exhaustive: true,
             cases: Box::new(move |_| {
                 let mut v: Vec<ShapeCase> = all_shapes(4, 1, max_len).into_iter().map(|shape| ShapeCase { shape }).collect();
